@@ -15,6 +15,12 @@ Proof. exact lock_order. Qed.
 Theorem C12_recv_path_lock_free : Gen_misc.recv_path_locks = [].
 Proof. exact recv_path_lock_free. Qed.
 
+(** every read or write of a lock-protected field (comm: the channel tables; dev: the
+    channel list; nxscope: the subscription lists) happens under its lock, apart from the
+    constructors and connect() - recomputed from the source on every run *)
+Theorem C12_guarded_access : all_guarded Gen_misc.unguarded_access = true.
+Proof. exact guarded_access. Qed.
+
 (** with locks requested in increasing rank there is no wait-for cycle among
     any number of threads: no deadlock *)
 Theorem C12_no_deadlock : forall (all_ordered : forall t : thr, ordered t) a, ~ path a a.
